@@ -92,6 +92,8 @@ def run_case(prop_id, case_json, seed, active_known):
         ex.max_violations = o.get("max_violations", 4)
         ex.active_known = set(active_known)
         ex.deadline = t0 + case.budget_s
+        ex.xc_max = o.get("xc_max", int(os.environ.get("VF_XC_MAX", "3")))
+        ex.xc_seed = seed
         explore.CURRENT = ex
         hx = HX("sym", explorer=ex, seed=seed)
         from vf import state
